@@ -95,9 +95,9 @@ class FleetStore(Store):
                 print(f"T={self.env.now:.2f}: Fleet activated with {len(self.items)} items ready.")
                 self.env.process(self.move_to_ready_items(self.items))
                 #self.env.process(self.move_to_ready_items(self.items))
-                if self.activate_fleet.triggered:
-                    #print("yes")
-                    self.activate_fleet = self.env.event()  # Reset the event for next activation
+            if self.activate_fleet.triggered:
+                #print("yes")
+                self.activate_fleet = self.env.event()  # Reset the event for next activation
 
     def reserve_put(self, priority=0):
         """
